@@ -239,7 +239,11 @@ def const_case():
     """generated constants vs the live values they were read from"""
     warnings.simplefilter("ignore")
     lines, impl = [], []
-    for name, v, prov in translate.collect_constants():
+    try:
+        consts = translate.collect_constants()
+    except translate.TranslateError:
+        consts = []      # already reported as a broken proof obligation by run()
+    for name, v, prov in consts:
         lines.append(f"prims const {name}")
         impl.append(f"0|#{f2b(float(v))}")
     return {"lines": lines, "impl": impl, "meta": {"kind": "constants"}}
@@ -931,8 +935,11 @@ def run(ctx):
     items = [(name, ctx.rng.randrange(1 << 30)) for name, (_, w) in ORACLES.items() for _ in range(per_unit * w)]
     results = core.pmap(oracle_item, items)
     per, failures, env, oracle_errors, tags = aggregate(results)
-    if oracle_errors:
-        raise RuntimeError("oracle bug: " + json.dumps(oracle_errors[0])[:1500])
+    for oe in oracle_errors[:3]:
+        # the oracle itself raised while working with what the real functions returned (e.g. a table of the wrong
+        # length): never seen on the unchanged tree, so it is reported as a failure of the function under test
+        failures.append({"clause": "oracle_exception", "signature": "C20.oracle_exception:" + str(oe.get("oracle", "?")),
+                         "detail": json.dumps(oe)[:1200], "replay": oe})
     calls = {fn: st["calls"] for fn, st in sorted(per.items())}
     return core.conclude(
         ctx, proof, [corr], failures,
